@@ -871,6 +871,7 @@ async def run_scenario(scn: dict, home: Path) -> dict:
                         i_ = [int(jt["cycle"]), jt["task"]]
                         world.msgs.append((tick + 1, jt, m.message, i_, int(jt["job"]),
                                            world.sent.get((tuple(i_), int(jt["job"]), m.message), 0)))
+                        world.first_tick.pop((tuple(i_), int(jt["job"]), m.message), None)   # never processed
                         ev("undelivered", id=i_, message=m.message)
                 except Exception:   # queue.Empty
                     pass
@@ -894,6 +895,7 @@ async def run_scenario(scn: dict, home: Path) -> dict:
                         i_ = [int(jt["cycle"]), jt["task"]]
                         world.msgs.append((tick + 1, jt, m.message, i_, int(jt["job"]),
                                            world.sent.get((tuple(i_), int(jt["job"]), m.message), 0)))
+                        world.first_tick.pop((tuple(i_), int(jt["job"]), m.message), None)   # never processed
                         ev("undelivered", id=[int(jt["cycle"]), jt["task"]], message=m.message)
                 except Exception:   # queue.Empty
                     pass
